@@ -28,7 +28,8 @@ EXPLANATION = (
     "only at the selected index, advances its index exactly once and raises LenaStopFill only when the index "
     "iterator is exhausted; (f) FillComputeSeq/FillRequestSeq split their elements into everything up to the first "
     "accumulator (a FillSeq) and a Sequence of everything after it, in order, and compute/request post-process the "
-    "accumulator's results with that Sequence.  Does not decide equality of the drivers' results on concrete chains.")
+    "accumulator's results with that Sequence; the wrapped element itself may stand only for a call-like attribute, never for run; the "
+    "results of run([value]) are filled in a loop, not taken with next().  Does not decide equality of the drivers' results on concrete chains.")
 RULES = {
     "C05-a": "TYPESTATE: adapters bind the requested method of the wrapped element, leave no stub, raise only Lena type/value errors",
     "C05-b": "wrapper bodies forward exactly once, in the documented nesting",
